@@ -253,6 +253,72 @@ fn find_reindex_ids() {
 }
 
 // ------------------------------------------------------------------------------------------------------------------
+// strip_annotation_ids / strip_data_ids (C03): afterwards no public id resolves, no stripped item carries an id, every item is
+// still found by handle (and by its temporary id), and items of other kinds keep their ids.
+#[test]
+fn find_strip_ids() {
+    for n in 0..5usize {
+        for removed in 0..(n + 1) {
+            for which in 0..3 {
+                let mut store = AnnotationStore::default()
+                    .with_resource(TextResourceBuilder::new().with_id("r").with_text("hello world")).unwrap()
+                    .with_dataset(AnnotationDataSetBuilder::new().with_id("d")).unwrap();
+                for i in 0..n {
+                    store.annotate(AnnotationBuilder::new().with_id(format!("A{}", i))
+                        .with_target(SelectorBuilder::textselector("r", Offset::simple(i, i + 1)))
+                        .with_data_with_id("d", "k", format!("v{}", i), format!("D{}", i))).unwrap();
+                }
+                if removed < n {
+                    let h = store.annotation(format!("A{}", removed).as_str()).unwrap().handle();
+                    store.remove(h).unwrap();
+                }
+                if which == 0 || which == 2 { store.strip_annotation_ids(); }
+                if which == 1 || which == 2 { store.strip_data_ids(); }
+                let strip_a = which != 1;
+                let strip_d = which != 0;
+                let mut bad: Option<String> = None;
+                for i in 0..n {
+                    let aid = format!("A{}", i);
+                    let gone = i == removed;
+                    let found = store.annotation(aid.as_str());
+                    if strip_a || gone {
+                        if found.is_some() { bad = Some(format!("annotation id {} still resolves", aid)); }
+                    } else if found.map(|a| a.id() != Some(aid.as_str())).unwrap_or(true) { bad = Some(format!("annotation id {} lost although annotation ids were not stripped", aid)); }
+                    let slot = <AnnotationStore as StoreFor<Annotation>>::get(&store, AnnotationHandle::new(i));
+                    match slot {
+                        Ok(a) => {
+                            if gone { bad = Some(format!("removed annotation {} is back", i)); }
+                            if strip_a && a.id().is_some() { bad = Some(format!("annotation {} still carries id {:?}", i, a.id())); }
+                            if a.handle() != Some(AnnotationHandle::new(i)) { bad = Some(format!("annotation {} lost its handle", i)); }
+                            let tid = format!("!A{}", i);
+                            if store.annotation(tid.as_str()).map(|x| x.handle()) != Some(AnnotationHandle::new(i)) { bad = Some(format!("temporary id {} no longer resolves", tid)); }
+                        }
+                        Err(_) => if !gone { bad = Some(format!("annotation {} vanished", i)); },
+                    }
+                    let did = format!("D{}", i);
+                    let dfound = store.annotationdata("d", did.as_str());
+                    if strip_d {
+                        if dfound.is_some() { bad = Some(format!("data id {} still resolves", did)); }
+                    } else if dfound.map(|d| d.id() != Some(did.as_str())).unwrap_or(true) { bad = Some(format!("data id {} lost although data ids were not stripped", did)); }
+                    let ds: &AnnotationDataSet = store.get("d").unwrap();
+                    match <AnnotationDataSet as StoreFor<AnnotationData>>::get(ds, AnnotationDataHandle::new(i)) {
+                        Ok(d) => { if strip_d && d.id().is_some() { bad = Some(format!("data {} still carries id {:?}", i, d.id())); }
+                                   if d.handle() != Some(AnnotationDataHandle::new(i)) { bad = Some(format!("data {} lost its handle", i)); } }
+                        Err(_) => bad = Some(format!("data {} vanished", i)),
+                    }
+                }
+                if store.resource("r").is_none() || store.dataset("d").is_none() || store.key("d", "k").is_none() && n > 0 { bad = Some("resource / dataset / key id lost".to_string()); }
+                if let Some(b) = bad {
+                    println!("WITNESS {{\"clause\":\"strip ids\",\"annotations\":{},\"removed\":{},\"strip\":\"{}\",\"what\":\"{}\"}}", n, removed, ["annotations", "data", "both"][which], b.replace('"', "'"));
+                    return;
+                }
+            }
+        }
+    }
+    println!("NO-WITNESS find_strip_ids");
+}
+
+// ------------------------------------------------------------------------------------------------------------------
 // Store-level consistency (C01, C02, C03, C10): the forward references of every live annotation against every reverse
 // index, read directly from the private fields, after each step of a set of small histories.
 
@@ -415,6 +481,7 @@ fn find_store_consistency() {
             ("remove_data d0/k0=x non-strict", 0), ("remove_data d0/k0=x strict", 1), ("remove_key d0/k1 strict", 2), ("remove_resource r0", 3), ("remove_dataset d1", 4), ("remove_resource r1", 5), ("remove_dataset d0", 6),
             ("remove_data d0/k2=n (the target of A11) non-strict", 10), ("remove_data d0/k2=n (the target of A11) strict", 11), ("remove_key d0/k2 non-strict", 12),
             ("protect_text(Text)", 7), ("protect_text(Checksum)", 8), ("protect_text(Both) twice, then remove A1", 9),
+            ("protect_text(Text) twice", 13), ("protect_text(Checksum) twice", 14), ("protect_text(Text), then (Both), then (Auto)", 15),
         ] {
             let mut store = consistency_base(mk());
             let res = match op {
@@ -428,6 +495,9 @@ fn find_store_consistency() {
                 12 => { let s = store.dataset("d0").unwrap().handle(); let k = store.dataset("d0").unwrap().key("k2").unwrap().handle(); store.remove_key(s, k, false) }
                 7 => store.protect_text(TextValidationMode::Text),
                 8 => store.protect_text(TextValidationMode::Checksum),
+                13 => store.protect_text(TextValidationMode::Text).and_then(|_| store.protect_text(TextValidationMode::Text)),
+                14 => store.protect_text(TextValidationMode::Checksum).and_then(|_| store.protect_text(TextValidationMode::Checksum)),
+                15 => store.protect_text(TextValidationMode::Text).and_then(|_| store.protect_text(TextValidationMode::Both)).and_then(|_| store.protect_text(TextValidationMode::Auto)),
                 _ => store.protect_text(TextValidationMode::Both).and_then(|_| store.protect_text(TextValidationMode::Both)).and_then(|_| { let h = store.annotation("A1").unwrap().handle(); store.remove_annotation(h) }),
             };
             if let Err(e) = &res { println!("(history '{}' not applicable: {:?})", hist, e); continue; }
@@ -584,9 +654,9 @@ fn find_relative_offsets() {
 fn find_subselectors() {
     // (resource, begin, end) for text targets; annotation index for annotation targets
     #[derive(Clone, Copy, PartialEq, Debug)]
-    enum T { Text(usize, usize, usize), Ann(usize), AnnText(usize), Res(usize), Set, Key, Data }
+    enum T { Text(usize, usize, usize), Ann(usize), AnnText(usize), AnnSub(usize), Res(usize), Set, Key, Data }
     let texts: Vec<(usize, usize, usize)> = vec![(0, 4, 5), (0, 0, 1), (0, 1, 2), (1, 0, 1), (1, 1, 2), (1, 2, 3), (0, 2, 3)];
-    let pool: Vec<T> = texts.iter().map(|(r, b, e)| T::Text(*r, *b, *e)).chain((0..3).map(T::Ann)).chain([T::AnnText(1), T::Res(0), T::Res(1), T::Set, T::Key, T::Data]).collect();
+    let pool: Vec<T> = texts.iter().map(|(r, b, e)| T::Text(*r, *b, *e)).chain((0..3).map(T::Ann)).chain([T::AnnText(1), T::AnnText(2), T::AnnText(3), T::AnnSub(3), T::AnnSub(4), T::Res(0), T::Res(1), T::Set, T::Key, T::Data]).collect();
     let mut seqs: Vec<Vec<usize>> = vec![];
     let mut frontier: Vec<Vec<usize>> = vec![vec![]];
     for _ in 0..3 { let mut next = vec![]; for s in &frontier { for x in 0..pool.len() { if !s.contains(&x) { let mut t = s.clone(); t.push(x); next.push(t); } } } seqs.extend(next.clone()); frontier = next; }
@@ -600,7 +670,9 @@ fn find_subselectors() {
         // create the text selections first (annotations T0..T6 on them), so that their handles are fixed and not in text order
         for (k, (r, b, e)) in texts.iter().enumerate() { store.annotate(AnnotationBuilder::new().with_id(format!("T{}", k)).with_target(SelectorBuilder::textselector(rid[*r], Offset::simple(*b, *e))).with_data_with_id("d", "k", "v", "D0")).unwrap(); }
         let sb = |t: &T| match t { T::Text(r, b, e) => SelectorBuilder::textselector(rid[*r], Offset::simple(*b, *e)), T::Ann(i) => SelectorBuilder::annotationselector(format!("T{}", 2 * i), None),
-            T::AnnText(i) => SelectorBuilder::annotationselector(format!("T{}", i), Some(Offset::whole())), T::Res(r) => SelectorBuilder::resourceselector(rid[*r]), T::Set => SelectorBuilder::datasetselector("d"),
+            T::AnnText(i) => SelectorBuilder::annotationselector(format!("T{}", i), Some(Offset::whole())),
+            // a sub-part (the zero-width begin) of the annotation's one-character text
+            T::AnnSub(i) => SelectorBuilder::annotationselector(format!("T{}", i), Some(Offset::simple(0, 0))), T::Res(r) => SelectorBuilder::resourceselector(rid[*r]), T::Set => SelectorBuilder::datasetselector("d"),
             T::Key => SelectorBuilder::datakeyselector("d", "k"), T::Data => SelectorBuilder::annotationdataselector("d", "D0") };
         let subs: Vec<SelectorBuilder> = seq.iter().map(|i| sb(&pool[*i])).collect();
         let target = match kind { 0 => SelectorBuilder::multiselector(subs), 1 => SelectorBuilder::compositeselector(subs), _ => SelectorBuilder::directionalselector(subs) };
@@ -612,10 +684,11 @@ fn find_subselectors() {
                 let x = store.annotation("X").unwrap();
                 let mut got: Vec<String> = x.textselections().map(|t| format!("{}:{}-{}", t.resource().id().unwrap(), t.begin(), t.end())).collect();
                 got.extend(x.annotations_in_targets(AnnotationDepth::One).map(|a| a.id().unwrap().to_string()));
-                let mut want: Vec<String> = seq.iter().filter_map(|i| match pool[*i] { T::Text(r, b, e) => Some(format!("{}:{}-{}", rid[r], b, e)), _ => None }).collect();
-                want.extend(seq.iter().filter_map(|i| match pool[*i] { T::Ann(i) => Some(format!("T{}", 2 * i)), _ => None }));
-                got.sort(); want.sort();
-                let plain = seq.iter().all(|i| matches!(pool[*i], T::Text(..) | T::Ann(_)));
+                let mut want: Vec<String> = seq.iter().filter_map(|i| match pool[*i] { T::Text(r, b, e) => Some(format!("{}:{}-{}", rid[r], b, e)),
+                    T::AnnText(i) => Some(format!("{}:{}-{}", rid[texts[i].0], texts[i].1, texts[i].2)), T::AnnSub(i) => Some(format!("{}:{}-{}", rid[texts[i].0], texts[i].1, texts[i].1)), _ => None }).collect();
+                want.extend(seq.iter().filter_map(|i| match pool[*i] { T::Ann(i) => Some(format!("T{}", 2 * i)), T::AnnText(i) | T::AnnSub(i) => Some(format!("T{}", i)), _ => None }));
+                got.sort(); want.sort(); got.dedup(); want.dedup();
+                let plain = seq.iter().all(|i| matches!(pool[*i], T::Text(..) | T::Ann(_) | T::AnnText(_) | T::AnnSub(_)));
                 if plain && got != want { Some(format!("targets {:?}, built with {:?}", got, want)) } else { store_inconsistency(&store) }
             }
         };
@@ -789,7 +862,8 @@ fn find_data_search() {
         }
     }
     let dataset = store.dataset("d").unwrap();
-    for key in ["k0", "k1"] { for (name, op) in mk_ops() {
+    // (a key that does not exist selects nothing)
+    for key in ["k0", "k1", "no-such-key"] { for (name, op) in mk_ops() {
         let want: Vec<String> = dataset.data().filter(|d| d.key().as_str() == key && oracle(d.value(), name)).map(|d| format!("{:?}", d.handle())).collect();
         let got: Vec<String> = dataset.find_data(key, op.clone()).map(|d| format!("{:?}", d.handle())).collect();
         let mut g = got.clone(); g.sort(); let mut w = want.clone(); w.sort();
